@@ -47,6 +47,50 @@ static void print_script(const char *tag, const struct c06_script *s)
 	}
 }
 
+/* smix calls of the session that is still open on the reused context (start, slot loads / releases that succeeded) */
+static struct c06_op smix_log[C06_MAXOPS];
+static int smix_log_n;
+
+static void smix_track(struct context_data *b, const struct c06_op *op, int was_open_tables)
+{
+	switch (op->kind) {
+	case OP_SMIXSTART:
+		/* took effect iff not playing and arguments valid: then the tables are new and sized as asked */
+		if (b->state <= XMP_STATE_LOADED && b->smix.xxi != NULL && b->smix.chn == op->a && b->smix.smp == op->b) {
+			smix_log_n = 0;
+			smix_log[smix_log_n++] = *op;
+		}
+		break;
+	case OP_SMIXEND:
+		if (b->smix.xxi == NULL && b->smix.xxs == NULL)
+			smix_log_n = 0;
+		break;
+	case OP_SMIXLOAD: case OP_SMIXREL:
+		if (was_open_tables && op->a >= 0 && op->a < b->smix.ins && smix_log_n < C06_MAXOPS)
+			smix_log[smix_log_n++] = *op;
+		break;
+	}
+}
+
+static void smix_mirror(struct context_data *a, struct context_data *b)
+{
+	struct c06_obs junk;
+	int i;
+	c06_obs_init(&junk);
+	xmp_end_smix((xmp_context)a);
+	printf("P smix %s calls %d\n", b->smix.xxi ? "open" : "closed", smix_log_n);
+	if (b->smix.xxi == NULL && b->smix.xxs == NULL)
+		return;
+	for (i = 0; i < smix_log_n; i++)
+		c06_apply((xmp_context)a, &smix_log[i], &mods, &junk);
+	/* the slot volumes are the volume base of whatever module was loaded when the slot was filled */
+	for (i = 0; i < b->smix.ins && i < a->smix.ins; i++) {
+		a->smix.xxi[i].vol = b->smix.xxi[i].vol;
+		if (a->smix.xxi[i].sub && b->smix.xxi[i].sub)
+			a->smix.xxi[i].sub->vol = b->smix.xxi[i].sub->vol;
+	}
+}
+
 /* copy the settings documented to persist across loads from B to the fresh context A */
 static void copy_persistent(struct context_data *a, struct context_data *b)
 {
@@ -57,6 +101,10 @@ static void copy_persistent(struct context_data *a, struct context_data *b)
 	xmp_set_instrument_path((xmp_context)a, b->m.instrument_path);
 	printf("P p_player_flags %d\nP m_smpctl %d\nP m_defpan %d\nP s_numvoc %d\nP m_instrument_path %s\n",
 		b->p.player_flags, b->m.smpctl, b->m.defpan, b->s.numvoc, b->m.instrument_path ? b->m.instrument_path : "-");
+	/* the sound-effect mixer session B still has OPEN is a persistent setting too: the fresh context repeats
+	 * the calls of that session (see smix_log); a session B has closed leaves nothing behind, then A stays as
+	 * created and B's smix members must equal A's. */
+	smix_mirror(a, b);
 }
 
 struct hist_case {
@@ -84,7 +132,20 @@ static int run_hist(const struct hist_case *hc)
 		xmp_start_smix(B, hc->smix_chn, 2);
 	}
 	c06_obs_init(&junk);
-	apply_script(B, &hc->hist, &junk);
+	smix_log_n = 0;
+	if (hc->smix_chn > 0 && b->smix.xxi != NULL) {
+		memset(&smix_log[0], 0, sizeof(smix_log[0]));
+		smix_log[0].kind = OP_SMIXSTART; smix_log[0].a = hc->smix_chn; smix_log[0].b = 2;
+		smix_log_n = 1;
+	}
+	{
+		int i;
+		for (i = 0; i < hc->hist.n; i++) {
+			int open_before = b->smix.xxi != NULL;
+			c06_apply(B, &hc->hist.op[i], &mods, &junk);
+			smix_track(b, &hc->hist.op[i], open_before);
+		}
+	}
 	printf("hist_state %d frames %ld\n", b->state, junk.frames);
 	copy_persistent(a, b);
 	if (hc->poison && c06_poison_n[0] > 0) {
@@ -253,8 +314,10 @@ static void print_hist(int id, const struct hist_case *hc)
 
 /* ---- op cases ---------------------------------------------------------- */
 
-enum { MOP_CREATE, MOP_PROLOGUE, MOP_EPILOGUE, MOP_RESETFLOW, MOP_START, MOP_END, MOP_RELEASE, MOP_LOAD, MOP_N };
-static const char *const mop_name[MOP_N] = { "create", "prologue", "epilogue", "resetflow", "start", "end", "release", "load" };
+enum { MOP_CREATE, MOP_PROLOGUE, MOP_EPILOGUE, MOP_RESETFLOW, MOP_START, MOP_END, MOP_RELEASE, MOP_LOAD,
+       MOP_ENDSMIX, MOP_STARTSMIX, MOP_N };
+static const char *const mop_name[MOP_N] = { "create", "prologue", "epilogue", "resetflow", "start", "end", "release", "load",
+	"endsmix", "startsmix" };
 
 static void print_ext_start(struct context_data *c)
 {
@@ -365,6 +428,15 @@ static int run_op(int id, int mop, const struct c06_script *hist, int target, in
 		r = xmp_load_module(C, mods.path[target]);
 		printf("ext ret %d\n", r);
 		break;
+	case MOP_ENDSMIX:
+		xmp_end_smix(C);
+		break;
+	case MOP_STARTSMIX: {
+		int chn = vrng_range(0, 6), smp = vrng_range(0, 5);
+		printf("ext smixargs %d %d\n", chn, smp);
+		r = xmp_start_smix(C, chn, smp);
+		printf("ext smixret %d\n", r);
+		break; }
 	}
 	c06_image_take(c, &post);
 	c06_print_image(stdout, "post", &post);
